@@ -34,6 +34,7 @@ func runC08(e *core.Env) error {
 		nkeys := 1 + rr.Intn(9)
 		hits, fails := 0, 0
 		served := map[uint64]int{}
+		failedData := map[uint64]bool{}
 		segVerdict := "ok"
 		for i := 0; i < 10+rr.Intn(40); i++ {
 			start := uint64(1 + rr.Intn(nkeys))
@@ -48,8 +49,13 @@ func runC08(e *core.Env) error {
 				ftok = "!"
 			}
 			called := false
+			withData := fail && rr.Bool() // a getter that hands back the blocks it rejected together with the error (Client.blocks / headers do)
 			bs, err := vc.Get(start, limit, func() ([]eth.Block, error) {
 				called = true
+				if fail && withData {
+					failedData[data] = true
+					return []eth.Block{{Header: eth.Header{Number: eth.Uint64(data)}}}, errors.New("validation failed")
+				}
 				if fail {
 					return nil, errors.New("fetch failed")
 				}
@@ -77,6 +83,11 @@ func runC08(e *core.Env) error {
 				if served[start] > max(maxreads, 1) && segVerdict == "ok" {
 					segVerdict = fmt.Sprintf("range %d served %d successive reads from one fetch with max-reads %d", start, served[start], maxreads)
 				}
+			}
+			if err == nil && len(bs) > 0 && failedData[bs[0].Num()] && segVerdict == "ok" {
+				segVerdict = fmt.Sprintf("range %d: blocks of a FAILED fetch were served", start)
+			}
+			switch {
 			case out == "err" && !fail:
 				segVerdict = "a failed fetch was served although the source answered"
 			}
